@@ -1714,7 +1714,7 @@ class Record(ak._connect._numpy.NDArrayOperatorsMixin):
         the (small) C++ nodes or Python objects that reference the (large)
         array buffers.
         """
-        return self.layout.nbytes
+        return self.layout.array.nbytes
 
     @property
     def fields(self):
